@@ -45,7 +45,8 @@ def gen_body(st, cfg, counter, depth, allow_nested):
     stmts = []
     while counter["left"] > 0 and st.chance(0.8, "more"):
         counter["left"] -= 1
-        k = st.weighted([4, 3, 3 if depth < 3 else 0, 1, 1, 2 if (allow_nested and depth < 2) else 0], "stmt")
+        k = st.weighted([4, 3, 3 if depth < 3 else 0, 1, 1, 2 if (allow_nested and depth < 2) else 0,
+                         2 if (allow_nested and depth < 2) else 0], "stmt")
         if k == 0:
             counter["nid"] += 1
             stmts.append({"s": "yield", "v": counter["nid"], "on_throw": ["propagate", "catch"][st.choose(2, "on_throw")]})
@@ -63,9 +64,15 @@ def gen_body(st, cfg, counter, depth, allow_nested):
         elif k == 4:
             stmts.append({"s": "raise"})
             break
-        else:
+        elif k == 5:
             counter["gid"] += 1
             stmts.append({"s": "nested", "gid": counter["gid"],
+                          "body": gen_body(st, cfg, counter, depth + 1, False)})
+        else:
+            # the outer generator steps an inner decorated generator by hand, a few times only, and carries
+            # on with the inner one left suspended (closed when the outer generator ends)
+            counter["gid"] += 1
+            stmts.append({"s": "nested_partial", "gid": counter["gid"], "steps": 1 + st.choose(3, "partial-steps"),
                           "body": gen_body(st, cfg, counter, depth + 1, False)})
     return stmts
 
@@ -140,10 +147,18 @@ class Run(object):
             # first resumption: the context current right now is the generator's base
             g.base = run.cur_top()
             run.active.append(g)
+            g.partials = []
             try:
                 run.check("first resumption")
                 res = yield from run.body(g, g.body)
             finally:
+                for g2, w in g.partials:
+                    if not g2.done:
+                        try:
+                            w.close()
+                        except AppError:
+                            pass
+                        g2.done = True
                 if g in run.active:
                     run.active.remove(g)
             if res is not None:
@@ -209,6 +224,26 @@ class Run(object):
                 return ("return", st["r"])
             elif k == "raise":
                 raise AppError("boom from generator %d" % g.gid)
+            elif k == "nested_partial":
+                g2 = G(st["gid"], st["body"])
+                g2.finished_by = None
+                self.gens[g2.gid] = g2
+                w = self.make(g2)()
+                g2.it = None
+                self.rc.probe("nested_generator_stepped_partially")
+                for _ in range(st["steps"]):
+                    try:
+                        next(w)
+                    except StopIteration:
+                        g2.done = True
+                        break
+                    except AppError:
+                        g2.done = True
+                        break
+                    # the inner generator is suspended (possibly inside an action of its own); this is
+                    # the outer generator's code again, in the outer generator's own context
+                    self.check("after partial inner step")
+                g.partials.append((g2, w))
             elif k == "nested":
                 g2 = G(st["gid"], st["body"])
                 g2.finished_by = None
@@ -270,6 +305,8 @@ class Run(object):
             for st in stmts:
                 if st["s"] == "return":
                     return st["r"]
+                if st["s"] == "raise":
+                    return None
                 if st["s"] == "with":
                     r = find(st["body"])
                     if r is not None:
@@ -527,6 +564,8 @@ def drive(rc, run, cfg, bodies, counter, st, steps, ctxs):
         if len(g.events) > n_ev:
             # the body observed this resumption at a yield
             obs = g.events[n_ev]
+            if how in ("send", "next") and obs[0] != "got":
+                raise run.viol("sent_value", "driver did %s(), the body observed %r at its yield" % (how, obs[:1] + obs[2:]))
             if how == "send" and obs[0] == "got" and obs[2] is not g.sent:
                 raise run.viol("sent_value", "body received %r, driver sent %r" % (obs[2], g.sent))
             if how == "next" and obs[0] == "got" and obs[2] is not None:
